@@ -73,6 +73,10 @@ fn n_class(n: usize) -> &'static str {
 }
 
 fn draw_n(rng: &mut Rng) -> usize {
+    // the `large` family: thousands of rows
+    if scverif::big() > 0 {
+        return rng.us(1025, 4000);
+    }
     let r = rng.f();
     if r < 0.4 {
         rng.us(2, 12)
@@ -678,6 +682,7 @@ struct Query {
 }
 
 fn fit_case_t<T: W>(c: &mut Case, kind: &str, scaled: bool) {
+    let idx = c.index;
     let dat = draw_data::<T>(c, kind, scaled);
     let (n, d) = (dat.x.r, dat.x.c);
     if dat.distinct < 2 {
@@ -738,7 +743,7 @@ fn fit_case_t<T: W>(c: &mut Case, kind: &str, scaled: bool) {
             .map(|_| Query { kind: c.rng.below(5), a: c.rng.f(), b: c.rng.f(), w: c.rng.f(), z: (0..d).map(|_| c.rng.normal()).collect() })
             .collect();
         let params = KMeansParameters::default().with_k(k).with_max_iter(max_iter);
-        let model = match c.must("KMeans::fit", || KMeans::fit(&xm, params)) {
+        let model = match c.must("KMeans::fit", || KMeans::fit(&xm, scverif::reused(idx, params))) {
             Some(Ok(m)) => m,
             Some(Err(e)) => {
                 c.check("fit.ok", false, &sg, || format!("fit returned Err({}) for k = {}, max_iter = {}, {} distinct rows", e, k, max_iter, dat.distinct));
@@ -1046,7 +1051,14 @@ fn assign_case_t<T: W>(c: &mut Case, scaled: bool) {
     }
     let mut sets: Vec<(String, Vec<Vec<f64>>)> = Vec::new();
     for _ in 0..CALLS_PER_DATASET {
-        let k = if c.rng.bool(0.05) { 1 } else { c.rng.us(2, 8) };
+        let k = if scverif::big() > 0 && c.rng.bool(0.5) {
+            // more centroids than any narrow index type or fixed-size candidate table holds
+            c.rng.us(257, 400)
+        } else if c.rng.bool(0.05) {
+            1
+        } else {
+            c.rng.us(2, 8)
+        };
         let ck = *c.rng.pick(&CKINDS);
         let cs: Vec<Vec<f64>> = gen_centroids(&mut c.rng, &dat, k, ck).into_iter().map(|r| r.into_iter().map(round_t::<T>).collect()).collect();
         let s_cent = cs.iter().map(|r| linf(r)).fold(0.0f64, f64::max);
@@ -1160,6 +1172,18 @@ fn api_paths_fam(c: &mut Case) {
     scverif::apipaths::case(c, "C12")
 }
 
+/// fits and assignment steps on 1025..4000 rows, assignment steps also with 257..400 centroids (beyond the ordinary
+/// bounds of 300 rows and 8 centroids)
+fn large(c: &mut Case) {
+    let g = c.index % 4;
+    scverif::with_big(1, || match g {
+        0 => fit_continuous(c),
+        1 => fit_clustered(c),
+        2 => fit_lattice(c),
+        _ => assign(c),
+    })
+}
+
 fn main() {
     let args: Vec<String> = std::env::args().collect();
     if args.len() >= 3 && args[1] == "--probe-build" {
@@ -1194,6 +1218,7 @@ fn main() {
             Family::new("fit_far_offset", 600, 15000, fit_far_offset),
             Family::new("assign", 4500, 135000, assign),
             Family::new("assign_scaled", 1000, 30000, assign_scaled),
+            Family::new("large", 400, 8000, large),
             Family::new("assign_enum", 16384, 16384, assign_enum).exhaustive(true, true),
         ],
         min_nontrivial: 4000,
